@@ -40,7 +40,7 @@ def rand_text(rng):
 
 def gen(rng, depth=0, max_depth=3):
     nodes = []
-    for _ in range(rng.randint(1, 3)):
+    for _ in range(rng.randint(1, 3) if max_depth <= 4 else rng.choice([1, 1, 2])):
         if depth < max_depth and rng.random() < 0.15:
             n = gen_abbr.Node('g')
             n.children = gen(rng, depth + 1, max_depth)
@@ -63,7 +63,7 @@ def gen(rng, depth=0, max_depth=3):
                 n.text = rng.choice(TEXTS) if rng.random() < 0.5 else rand_text(rng)
             if rng.random() < 0.2:
                 n.rep = rng.randint(2, 3)
-            if depth < max_depth and rng.random() < 0.5:
+            if depth < max_depth and rng.random() < (0.5 if max_depth <= 4 else 0.93):
                 n.children = gen(rng, depth + 1, max_depth)
             if not n.children and n.text is None and n.name and rng.random() < 0.2:
                 n.selfclose = True
@@ -261,7 +261,7 @@ def run_shard(desc, ctx):
         .add('emmet.markup.format.indent_format:push_primary_attributes').add('emmet.markup.format.indent_format:push_secondary_attributes').install()
     try:
         for i in range(desc['n']):
-            tree = gen(rng, 0, rng.choice([2, 3, 3, 4]))
+            tree = gen(rng, 0, rng.choice([2, 3, 3, 4]) if rng.random() < 0.9 else rng.choice([8, 10, 12]))
             abbr = gen_abbr.write(tree, rng)[0]
             exp = []
             expected_lines(tree, 0, None, exp)
